@@ -635,10 +635,14 @@ def gen_c16(k):
             vs.append((vn, docs()))
         derive = "zlink_core::introspect::Type" if kind == "type_enum" else "zlink_core::introspect::CustomType"
         s.append(doc_attr(tdocs, ""))
-        s.append(f'#[derive({derive})]\n#[zlink(crate = "zlink_core")]\npub enum {name} {{\n')
-        for vn, ds in vs:
+        # other attributes an enum may carry: a layout (`repr` does not change how serde names the variants),
+        # further derives, explicit discriminants
+        extra = R.choice(["", "", "#[repr(u8)]\n", "#[repr(i32)]\n", "#[repr(C)]\n", "#[derive(Clone, Copy, Debug, PartialEq, Eq)]\n", "#[derive(Debug, serde::Serialize, serde::Deserialize)]\n#[repr(u16)]\n"])
+        discr = extra.startswith("#[repr(") and "C" not in extra and R.random() < 0.5
+        s.append(f'{extra}#[derive({derive})]\n#[zlink(crate = "zlink_core")]\npub enum {name} {{\n')
+        for vi, (vn, ds) in enumerate(vs):
             s.append(doc_attr(ds, "    "))
-            s.append(f"    {vn},\n")
+            s.append(f"    {vn} = {vi * 3 + 1},\n" if discr else f"    {vn},\n")
         s.append("}\n\n")
         vexp = "vec![" + ", ".join(f'GVariant {{ name: "{vn}".into(), comments: {gvec(ds)} }}' for vn, ds in vs) + "]"
         if kind == "type_enum":
